@@ -22,6 +22,9 @@ ASSUMPTIONS = ["faults are exceptions derived from Exception raised in place of 
                "'Stack under construction' = innermost active extract_child call at injection time"]
 
 
+RULE += ' Round 9: hostile records (attribute lookups raise KeyError, == and bool() raise) handing over raw frames as frame/tuple/list/StackSlice, direct and awaited.'
+
+
 def legs(tier):
     from vlib.runner import Leg
     n = 2 if tier == "quick" else 6
